@@ -292,7 +292,7 @@ def fam_hist(t, v):
     n += 1
     if not check_set(t, p, {'z': [v]}, touch=1 + n % 3): return False
   # the same for an in-place set on a view that has been iterated
-  for p in targets(t, ('fresh', 'append')):
+  for p in targets(t, ('fresh', 'append') if _FULL else ('fresh',)):
     t2 = ref_copy(t)
     if any(is_tuple(o) for q, o in ref_nodes(t2) if _prefix(q, p) and q != p): continue
     w = mk(t2)
@@ -315,7 +315,7 @@ def fam_items(t, v):
     if (gd(view, k) if n % 2 else rd(view, k)) is not o: return False   # view[k] and view.get(k) alternate
   ks = tuple(k for k, _ in cands)
   want = [o for _, o in cands]
-  for keys, exp in ((ks, want), (ks[::-1], want[::-1]), (list(ks), want)):
+  for keys, exp in ((ks, want), (ks[::-1], want[::-1]), (list(ks), want))[:3 if _FULL else 2]:
     r = rd(view, keys)
     if not is_tuple(r) or len(r) != len(keys): return False
     for x, y in zip(r, exp):
@@ -350,7 +350,8 @@ def fam_apply(t, v):
     g = rd(mv, Key(p))
     if not is_tuple(g) or len(g) != 2 or g[1] is not o: return False
   # apply on a selection maps the selected leaves only
-  for p, o in ref_leaves(t):
+  lv = ref_leaves(t)
+  for p, o in (lv if _FULL else lv[:1] + lv[-1:]):        # (quick tier: first and last leaf as the selection)
     r = L(lambda: View(t, key_paths=(Key(p),), map_fn=_tag).apply())
     if not same(r, ref_set(snap, p, _tag(o))) or not shared(r, before, p): return False
   if not unchanged(t, snap, before): return False
@@ -362,7 +363,8 @@ def fam_apply(t, v):
 
 # ---- law: sequences of two copying sets --------------------------------------------------------------------------
 @oracle
-def fam_two(t, a, b, kinds, allpairs):
+def fam_two(t, a, b, kinds):
+  allpairs = _FULL
   snap = ref_copy(t); before = ref_nodes(t)
   tg = targets(t, kinds)
   leafs = targets(t, ('leaf',))
@@ -476,6 +478,20 @@ def fam_empty_roots(v):
     if not same(new.data, want) or rd(new, Key(p)) is not v or not iter_ok(new): return False
   return True
 
+# ---- a scalar as the root (degenerate tree: the only path is SELF) ---------------------------------------------------
+@oracle
+def fam_root_scalar(v, a):
+  view = mk(v)
+  keys = L(view.keys)
+  if len(keys) != 1 or tuple(keys[0]) != (SELF,) or L(len, view) != 1: return False
+  if rd(view, keys[0]) is not v or rd(view, SELF) is not v or rd(view, Key()) is not v: return False
+  mv = mk(v, map_fn=_tag)
+  g = rd(mv, SELF)
+  if not is_tuple(g) or len(g) != 2 or g[1] is not v: return False
+  if not same(L(mv.apply), ('M', v)): return False
+  new = cs(view, SELF, a)
+  return new.data is a and view.data is v
+
 # ---- numpy arrays as INTERIOR nodes: concrete structure; the value is enumerated (realized) by the solver --------
 def fam_np(v):
   v = _real(v)
@@ -549,7 +565,7 @@ def templates(tier):
 
 # family -> (extra symbolic ints, call, heavy). Heavy families use the smaller child-choice range in the quick tier.
 FAMILIES = {   # heaviest first (they are started first)
-    'two': (['a', 'b'], "fam_two(t, a, b, ('leaf', 'fresh', 'append'), %(allpairs)d)", True),
+    'two': (['a', 'b'], "fam_two(t, a, b, ('leaf', 'fresh', 'append'))", True),
     'hist': (['v'], 'fam_hist(t, v)', True),
     'special': (['a', 'b'], 'fam_special(t, a, b)', True),
     'items': (['v'], 'fam_items(t, v)', False),
@@ -561,17 +577,18 @@ FAMILIES = {   # heaviest first (they are started first)
 }
 
 
-def gen(tier, cmax, cmax_heavy, allpairs):
+def gen(tier, cmax, cmax_heavy, full):
   F = xh.fn
-  s = [PRELUDE]
+  s = [PRELUDE, f'_FULL = {int(full)}   # 1: thorough tier (all pairs / all selections / all forms)']
   A = s.append
   for tag, expr, nc, nl, pre in templates(tier):
     for fam, (extra, call, heavy) in FAMILIES.items():
       cm = cmax_heavy if heavy else cmax
       A(F(f'ob_{fam}_{tag}', _args(nc, nl, extra), f'{pre} and 0 <= c1 <= {cm} and 0 <= c2 <= {cm}', f"""
       t = {expr}
-      return {call % dict(allpairs=allpairs)}"""))
+      return {call}"""))
   A(F('ob_empty_roots', 'v: int', 'True', 'return fam_empty_roots(v)'))
+  A(F('ob_root_scalar', 'v: int, a: int', 'v != 0', 'return fam_root_scalar(v, a)'))
   A(F('ob_np_interior', 'v: int', '0 <= v <= 2', 'return fam_np(v)'))
   A(F('ob_apply_mask', 'b0: bool, b1: bool, b2: bool, v: int', '0 <= v <= 1', 'return fam_mask(b0, b1, b2, v)'))
   # ---- vacuity witnesses: the interesting situations are reachable inside the bounds ------------------------------
@@ -611,10 +628,10 @@ def run(tier):
               V.copy_and_set, V.copy_and_update, V.__or__, V.apply, V.as_view, tree._default_tree, tree._dfs_iter_tree,
               tree.normalize_keys, tree.apply_mask)
   if tier == 'quick':
-    p = dict(cmax=9, cmax_heavy=6, allpairs=0)
+    p = dict(cmax=9, cmax_heavy=6, full=0)
     timeout = 180
   else:
-    p = dict(cmax=9, cmax_heavy=9, allpairs=1)
+    p = dict(cmax=9, cmax_heavy=9, full=1)
     timeout = 1200
   rep.bounds(tier=tier, depth=2 if tier == 'quick' else 3, per_condition_timeout_s=timeout, **p)
   only = os.environ.get('VF_ONLY')
